@@ -293,9 +293,13 @@ func (a *Array) Splice(n Number) Object {
 
 // Slice an array
 func (a *Array) Slice(n Number) Object {
-	return &Array{
-		items: a.items[int(n):],
+	// a copy, as in JavaScript: sorting or pushing on the receiver must not change the result
+	tail := a.items[int(n):]
+	res := &Array{
+		items: make([]Object, len(tail)),
 	}
+	copy(res.items, tail)
+	return res
 }
 
 // Sort array
